@@ -1,6 +1,392 @@
-/- C03 (work in progress: statements follow) -/
-import AriadneModel.Model.ArgSend
-import AriadneModel.Model.ArgFindings
+/-
+  C03 — Method arguments arrive at the server as the declared variables.
+
+  Statements + final proofs.  Models: Model/Arguments.lean (`ArgumentsGenerator`), Model/ClientMethod.lean
+  (`add_method`, `get_variable_names`), Model/InputFields.lean (attributes of generated input classes),
+  Model/ArgValues.lean (caller values, what they mean), Model/ArgSend.lean (the emitted method body and
+  the composition with the base client), Model/BaseClient.lean (`_convert_*`, shared with C11).
+  Reference semantics (modelled, validated, not verified): Spec/PyCall.lean (CPython def / call binding),
+  Spec/PydLog.lean (pydantic `model_dump(by_alias, exclude_unset)`), Spec/Coerce.lean (graphql-core
+  variable coercion).  Lemmas: Proofs/Coerce.lean, Proofs/ArgValues.lean, Proofs/ArgCall.lean,
+  Proofs/ArgDeliver.lean.
+
+  Quantification: every configuration (schema view, custom-scalar section, snake-casing on/off,
+  sync/async), every list of variable definitions (any wrapper nesting, defaults, any names), every
+  user `serialize` function (`UserFns`), every caller assignment — value trees of unbounded size and
+  depth: scalars, enum members, custom-scalar values, lists, (nested, recursive) input-model
+  instances with set/unset fields, `None`, omitted.
+
+  Reading decisions (DESIGN.md §3.0): "schema-valid Python arguments" = `argsValid` (`hasType`);
+  "delivers exactly the caller's values" = graphql-core's coercion of the sent `variables` object
+  returns `intendedVars`: per given variable the caller's value under the original names (enum
+  members by name, custom scalars as `serialize(value)` when configured), unset input fields /
+  omitted variables replaced by the schema's default where one is declared and absent otherwise.
+
+  The property is FALSE as written (`C03_full_false`): eight findings, one decidable trigger each
+  (Model/ArgFindings.lean).  Outside the triggers it is proved (`C03_partial`).
+-/
+import AriadneModel.Proofs.ArgDeliver
+
+set_option linter.unusedSimpArgs false
+set_option linter.unusedVariables false
 
 namespace Ariadne.C03
+open Ariadne Ariadne.Scalars Ariadne.Coerce Ariadne.ArgValues Ariadne.ArgSend Ariadne.Arguments Ariadne.ClientMethod
+open Ariadne.ArgFindings Ariadne.ArgProofs
+open Ariadne.BaseClient (PV)
+
+/-! ## 0. Vocabulary of the statements -/
+
+/-- the variable definitions as the server sees them -/
+def idefs (defs : List VarDecl) : List IField := defs.map (·.toIField)
+/-- … and as the generator sees them -/
+def vdefs (defs : List VarDecl) : List VarDef := defs.map (·.toVarDef)
+
+/-- What GraphQL validation and a sane configuration guarantee (hypotheses of every theorem):
+    input-type fields and the operation's variables have pairwise distinct names, every variable has
+    an input type, no configured scalar is named like a built-in one, `serialize` never returns null. -/
+structure Valid_03 (cfg : Cfg) (fns : UserFns) (defs : List VarDecl) : Prop where
+  hyp : Hyp cfg fns
+  inputTypes : ∀ d ∈ defs, isInputType cfg.schema d.type.base = true
+  varNames : (defs.map (·.name)).Nodup
+
+/-- one trigger per open finding of findings.d/C03.json -/
+def Supported_03 (cfg : Cfg) (defs : List VarDecl) : Prop :=
+  ¬ (trigSelf cfg.snake (vdefs defs) = true            -- C03-F2
+   ∨ trigKwargs cfg.snake (vdefs defs) = true          -- C03-F3
+   ∨ trigMerge cfg.snake (vdefs defs) = true           -- C03-F4
+   ∨ trigQueryClobber cfg.snake (vdefs defs) = true    -- C03-F1
+   ∨ trigShadow (envOf cfg) (vdefs defs) = true        -- C03-F6
+   ∨ trigMangled cfg.snake (vdefs defs) = true         -- C03-F8
+   ∨ trigSerializeNullable (envOf cfg) (vdefs defs) = true   -- C03-F5 (= C07-F1)
+   ∨ trigSerializeList (envOf cfg) (vdefs defs) = true)      -- C03-F7 (= C07-F2)
+
+instance (cfg : Cfg) (defs : List VarDecl) : Decidable (Supported_03 cfg defs) := by
+  unfold Supported_03; infer_instance
+
+theorem supported_iff (cfg : Cfg) (defs : List VarDecl) :
+    Supported_03 cfg defs ↔ anyTrigger (envOf cfg) (vdefs defs) = false := by
+  simp only [Supported_03, anyTrigger, vdefs, envOf, not_or, Bool.or_eq_false_iff, Bool.not_eq_true]
+  constructor
+  · rintro ⟨a, b, c, d, e, m, f, g⟩; exact ⟨⟨⟨⟨⟨⟨⟨a, b⟩, c⟩, d⟩, e⟩, m⟩, f⟩, g⟩
+  · rintro ⟨⟨⟨⟨⟨⟨⟨a, b⟩, c⟩, d⟩, e⟩, m⟩, f⟩, g⟩; exact ⟨a, b, c, d, e, m, f, g⟩
+
+/-- The property for one call `a` of the method generated for `defs`. -/
+structure Delivered (cfg : Cfg) (fns : UserFns) (async : Bool) (opName opText : String)
+    (defs : List VarDecl) (a : List AV) : Prop where
+  /-- the package imports, the call binds, a request is sent … -/
+  sent : ∃ req, send (envOf cfg) fns async opName opText defs a = .ok req ∧
+    /- … whose `variables` spec-conformant coercion accepts, delivering exactly the caller's values -/
+    coerceVars cfg.schema (idefs defs) req.variables = .ok (intendedVars cfg fns (idefs defs) a) ∧
+    /- the keys of the payload are the original GraphQL names of exactly the arguments passed
+       (so omitted optional arguments are absent) -/
+    req.variables.map (·.1) = givenNames (idefs defs) a ∧
+    /- explicit None travels as null -/
+    (∀ dv ∈ (idefs defs).zip a, dv.2.isNone = true → (dv.1.name, J.null) ∈ req.variables)
+
+/-- "a required variable cannot be omitted": the call raises TypeError, nothing is sent -/
+def RequiredEnforced (cfg : Cfg) (fns : UserFns) (async : Bool) (opName opText : String)
+    (defs : List VarDecl) (a : List AV) : Prop :=
+  ∀ d v, (d, v) ∈ defs.zip a → isNonNull d.type = true → v.isUnset = true →
+    ∃ msg, send (envOf cfg) fns async opName opText defs a = .error (.python (.typeError msg))
+
+/-- C03 at full strength, in the words of properties.jsonl: for every operation and every call with
+    schema-valid arguments the variables are accepted and delivered, omitted/unset are absent, None is
+    null, and a required variable cannot be omitted. -/
+def C03_full : Prop :=
+  ∀ (cfg : Cfg) (fns : UserFns) (async : Bool) (opName opText : String) (defs : List VarDecl) (a : List AV),
+    Valid_03 cfg fns defs →
+      (argsValid cfg (idefs defs) a = true → Delivered cfg fns async opName opText defs a) ∧
+      (defs.length = a.length → objsOK fns a → RequiredEnforced cfg fns async opName opText defs a)
+
+/-! ## 1. The theorems (must tier) -/
+
+/-- `vars_delivered`: outside the finding triggers, for every schema-valid assignment the sent
+    variables are coerced by the server to exactly the intended values. -/
+theorem vars_delivered (cfg : Cfg) (fns : UserFns) (async : Bool) (opName opText : String)
+    (defs : List VarDecl) (a : List AV)
+    (hv : Valid_03 cfg fns defs) (hs : Supported_03 cfg defs) (ha : argsValid cfg (idefs defs) a = true) :
+    ∃ req, send (envOf cfg) fns async opName opText defs a = .ok req ∧ req.query = opText ∧
+      coerceVars cfg.schema (idefs defs) req.variables = .ok (intendedVars cfg fns (idefs defs) a) := by
+  obtain ⟨req, h1, h2, _, h4⟩ := send_delivers cfg fns hv.hyp defs a opName opText "Client" async hv.inputTypes hv.varNames
+    ((supported_iff cfg defs).mp hs) ha
+  exact ⟨req, h1, h2, h4⟩
+
+/-- `vars_keys_original` + "omitted optional ⇒ key absent" + "None ⇒ null". -/
+theorem vars_keys_original (cfg : Cfg) (fns : UserFns) (async : Bool) (opName opText : String)
+    (defs : List VarDecl) (a : List AV)
+    (hv : Valid_03 cfg fns defs) (hs : Supported_03 cfg defs) (ha : argsValid cfg (idefs defs) a = true) :
+    ∃ req, send (envOf cfg) fns async opName opText defs a = .ok req ∧
+      req.variables.map (·.1) = givenNames (idefs defs) a ∧
+      (∀ dv ∈ (idefs defs).zip a, dv.2.isNone = true → (dv.1.name, J.null) ∈ req.variables) := by
+  obtain ⟨req, h1, _, h3, _⟩ := send_delivers cfg fns hv.hyp defs a opName opText "Client" async hv.inputTypes hv.varNames
+    ((supported_iff cfg defs).mp hs) ha
+  obtain ⟨k1, k2⟩ := payload_shape cfg fns (idefs defs) a req.variables h3
+  exact ⟨req, h1, k1, k2⟩
+
+/-- an omitted argument's variable name is not a key of the payload (variable names are distinct) -/
+theorem omitted_absent (ds : List IField) (vs : List AV) (hnd : (names ds).Nodup) :
+    ∀ dv ∈ ds.zip vs, dv.2.isUnset = true → dv.1.name ∉ givenNames ds vs := by
+  induction ds generalizing vs with
+  | nil => intro dv h; simp at h
+  | cons d ds ih =>
+    cases vs with
+    | nil => intro dv h; simp at h
+    | cons v vs =>
+      simp only [names, List.map_cons, List.nodup_cons] at hnd
+      have hsub : ∀ n ∈ givenNames ds vs, n ∈ ds.map (·.name) := by
+        intro n
+        clear ih hnd
+        induction ds generalizing vs with
+        | nil => cases vs <;> simp [givenNames]
+        | cons e ds ih2 =>
+          cases vs with
+          | nil => simp [givenNames]
+          | cons w vs =>
+            by_cases hw : w.isUnset = true
+            · simp only [givenNames, hw, if_true]; intro h; exact List.mem_cons_of_mem _ (ih2 vs h)
+            · have hw' : w.isUnset = false := by simpa using hw
+              simp only [givenNames, hw', Bool.false_eq_true, if_false, List.mem_cons, List.map_cons]
+              intro h
+              rcases h with h | h
+              · exact Or.inl h
+              · exact Or.inr (ih2 vs h)
+      intro dv hm hu
+      simp only [List.zip_cons_cons, List.mem_cons] at hm
+      rcases hm with hm | hm
+      · subst hm
+        simp only at hu
+        simp only [givenNames, hu, if_true]
+        exact fun h => hnd.1 (hsub _ h)
+      · have hrec := ih vs hnd.2 dv hm hu
+        have hne : dv.1.name ≠ d.name := by
+          intro e; apply hnd.1; rw [← e]; exact List.mem_map_of_mem (List.of_mem_zip hm).1
+        by_cases hv : v.isUnset = true
+        · simpa [givenNames, hv] using hrec
+        · have hv' : v.isUnset = false := by simpa using hv
+          simp only [givenNames, hv', Bool.false_eq_true, if_false, List.mem_cons, not_or]
+          exact ⟨hne, hrec⟩
+
+/-- unset input fields are absent at every depth: whatever model instance is dumped (top level, in
+    a list, as a field of another instance), its dump has exactly the keys of its SET fields, and
+    those keys are the original GraphQL field names. -/
+theorem unset_fields_absent (fns : UserFns) (fields : List (FieldKey × AV)) (kvs : List (String × PV))
+    (calls : List Call) (h : PydLog.dumpFields fns fields = .ok (kvs, calls)) :
+    kvs.map (·.1) = setKeys fields := dump_keys fns fields kvs calls h
+
+theorem field_key_original (cfg : Cfg) (f : IField) : (fieldKeyOf cfg f).key = f.name := fieldKey_key cfg f
+
+/-- a required variable cannot be omitted (`bindCall` fails with TypeError before anything is sent) -/
+theorem required_cannot_be_omitted (cfg : Cfg) (fns : UserFns) (async : Bool) (opName opText : String)
+    (defs : List VarDecl) (a : List AV)
+    (hv : Valid_03 cfg fns defs) (hs : Supported_03 cfg defs) (hlen : defs.length = a.length) (hobj : objsOK fns a) :
+    RequiredEnforced cfg fns async opName opText defs a := by
+  intro d v hd hreq hu
+  exact send_required_omitted cfg fns hv.hyp defs a opName opText "Client" async hv.inputTypes
+    ((supported_iff cfg defs).mp hs) hobj hlen d v hd hreq hu
+
+/-- the value-level core (induction over the input-value tree): a schema-valid value inside an
+    input model, dumped under the generated annotation and written as JSON, coerces at its GraphQL
+    type to the intended value -/
+theorem value_delivered (cfg : Cfg) (fns : UserFns) (hy : Hyp cfg fns) (inh : Bool) (t : GT) (v : AV)
+    (ht : hasType cfg t v = true)
+    (hc : annConf (InputFields.parseType cfg.scalars (InputFields.kindOf cfg.schema) inh t) v = true) :
+    ∃ p calls w, PydLog.dumpAnn fns (InputFields.parseType cfg.scalars (InputFields.kindOf cfg.schema) inh t) v = .ok (p, calls) ∧
+      BaseClient.toJson p = some w ∧ coerce cfg.schema t w = .ok (intended cfg fns v) := by
+  obtain ⟨p, calls, hd, _, w, hj, hco⟩ := dump_good cfg fns hy inh t v ht hc
+  exact ⟨p, calls, w, hd, hj, hco⟩
+
+/-! ## 2. The property on the complement of the triggers -/
+
+theorem C03_partial (cfg : Cfg) (fns : UserFns) (async : Bool) (opName opText : String)
+    (defs : List VarDecl) (a : List AV) (hv : Valid_03 cfg fns defs) (hs : Supported_03 cfg defs) :
+    (argsValid cfg (idefs defs) a = true → Delivered cfg fns async opName opText defs a) ∧
+    (defs.length = a.length → objsOK fns a → RequiredEnforced cfg fns async opName opText defs a) := by
+  refine ⟨fun ha => ?_, fun hlen hobj => required_cannot_be_omitted cfg fns async opName opText defs a hv hs hlen hobj⟩
+  obtain ⟨req, h1, _, h3, h4⟩ := send_delivers cfg fns hv.hyp defs a opName opText "Client" async hv.inputTypes hv.varNames
+    ((supported_iff cfg defs).mp hs) ha
+  obtain ⟨k1, k2⟩ := payload_shape cfg fns (idefs defs) a req.variables h3
+  exact ⟨⟨req, h1, h4, k1, k2⟩⟩
+
+/-! ## 3. The property as written is false: one witness per finding
+
+  Every witness is replayed on the real code by harness/c03.py (corpus/C03/*.json). -/
+
+mutual
+theorem beq_refl (j : J) : J.beq j j = true := by
+  cases j with
+  | arr xs => simp [J.beq, beqList_refl xs]
+  | obj kvs => simp [J.beq, beqKvs_refl kvs]
+  | _ => simp [J.beq]
+theorem beqList_refl (xs : List J) : J.beqList xs xs = true := by
+  cases xs with
+  | nil => simp [J.beqList]
+  | cons x xs => simp [J.beqList, beq_refl x, beqList_refl xs]
+theorem beqKvs_refl (kvs : List (String × J)) : J.beqKvs kvs kvs = true := by
+  cases kvs with
+  | nil => simp [J.beqKvs]
+  | cons kv rest => obtain ⟨k, x⟩ := kv; simp [J.beqKvs, beq_refl x, beqKvs_refl rest]
+end
+
+/-- executable form of (part of) `Delivered`, to evaluate witnesses -/
+def deliveredB (cfg : Cfg) (fns : UserFns) (async : Bool) (opName opText : String) (defs : List VarDecl) (a : List AV) : Bool :=
+  match send (envOf cfg) fns async opName opText defs a with
+  | .ok req =>
+    (match coerceVars cfg.schema (idefs defs) req.variables with
+     | .ok out => J.beqKvs out (intendedVars cfg fns (idefs defs) a)
+     | .error _ => false) && decide (req.variables.map (·.1) = givenNames (idefs defs) a)
+  | .error _ => false
+
+theorem deliveredB_of_Delivered {cfg : Cfg} {fns : UserFns} {async : Bool} {opName opText : String}
+    {defs : List VarDecl} {a : List AV} (h : Delivered cfg fns async opName opText defs a) :
+    deliveredB cfg fns async opName opText defs a = true := by
+  obtain ⟨req, h1, h2, h3, _⟩ := h.sent
+  simp [deliveredB, h1, h2, h3, beqKvs_refl]
+
+/-- instrumented user functions of the witnesses (what harness/argwire.py's `serialize_*` do) -/
+def wFns : UserFns :=
+  { ser := fun f j => .obj [("$ser", .str f), ("v", j)],
+    other := fun f _ => .ok (.leaf (some (.obj [("$ser", .str f), ("other", .str "not-a-scalar")]))) }
+
+def plainCfg (snake : Bool) : Cfg := { schema := ⟨[]⟩, scalars := [], snake := snake }
+
+def scaData : ScalarData :=
+  { type_ := ".custom_scalars.TA", serialize := some ".custom_scalars.serialize_a", parse := some ".custom_scalars.parse_a" }
+
+/-- `scalar ScA` configured with type / parse / serialize -/
+def scaCfg : Cfg := { schema := ⟨[("ScA", .scalar)]⟩, scalars := [("ScA", scaData)], snake := true }
+
+def intT : Gql.TypeRef := .named "Int"
+
+theorem plain_hyp (snake : Bool) : Hyp (plainCfg snake) wFns :=
+  ⟨by intro n fs h; simp [plainCfg, ISchema.get?] at h,
+   by intro n d h; simp [plainCfg, lookupScalar] at h,
+   by intro f j; rfl⟩
+
+theorem sca_hyp : Hyp scaCfg wFns := by
+  refine ⟨?_, ?_, by intro f j; rfl⟩
+  · intro n fs h
+    by_cases e : ("ScA" == n) = true
+    · simp [scaCfg, ISchema.get?, List.find?, e] at h
+    · simp [scaCfg, ISchema.get?, List.find?, e] at h
+  · intro n d h
+    simp only [scaCfg, lookupScalar, List.find?] at h
+    by_cases e : ("ScA" == n) = true
+    · have : n = "ScA" := by simpa using (beq_iff_eq.mp e).symm
+      subst this; decide
+    · simp [e] at h
+
+theorem plain_valid (snake : Bool) (defs : List VarDecl) (h1 : ∀ d ∈ defs, d.type.base = "Int")
+    (h2 : (defs.map (·.name)).Nodup) : Valid_03 (plainCfg snake) wFns defs :=
+  ⟨plain_hyp snake, by intro d hd; rw [h1 d hd]; rfl, h2⟩
+
+/-- C03-F1: `$query` with `$_query`, snake-casing off -/
+def f1Defs : List VarDecl := [⟨"query", intT, none⟩, ⟨"_query", intT, none⟩]
+def f1Args : List AV := [.int 1, .int 2]
+theorem F1_witness_fails : ¬ Delivered (plainCfg false) wFns true "Q" "query Q" f1Defs f1Args :=
+  fun h => absurd (deliveredB_of_Delivered h) (by decide)
+
+/-- C03-F2: `$self` -/
+def f2Defs : List VarDecl := [⟨"self", intT, none⟩]
+theorem F2_witness_fails : ¬ Delivered (plainCfg true) wFns true "Q" "query Q" f2Defs [.int 1] :=
+  fun h => absurd (deliveredB_of_Delivered h) (by decide)
+
+/-- C03-F3: `$kwargs` -/
+def f3Defs : List VarDecl := [⟨"kwargs", intT, none⟩]
+theorem F3_witness_fails : ¬ Delivered (plainCfg true) wFns true "Q" "query Q" f3Defs [.int 1] :=
+  fun h => absurd (deliveredB_of_Delivered h) (by decide)
+
+/-- C03-F4: `$fooBar` with `$foo_bar` (and `$_x` with `$x`), snake-casing on -/
+def f4Defs : List VarDecl := [⟨"fooBar", intT, none⟩, ⟨"foo_bar", intT, none⟩]
+def f4bDefs : List VarDecl := [⟨"_x", intT, none⟩, ⟨"x", intT, none⟩]
+theorem F4_witness_fails : ¬ Delivered (plainCfg true) wFns true "Q" "query Q" f4Defs [.int 1, .int 2] :=
+  fun h => absurd (deliveredB_of_Delivered h) (by decide)
+theorem F4b_witness_fails : ¬ Delivered (plainCfg true) wFns true "Q" "query Q" f4bDefs [.int 1, .int 2] :=
+  fun h => absurd (deliveredB_of_Delivered h) (by decide)
+
+/-- C03-F5: an omitted (or None) nullable custom-scalar argument with `serialize` -/
+def f5Defs : List VarDecl := [⟨"a", .named "ScA", none⟩]
+theorem F5_witness_fails : ¬ Delivered scaCfg wFns true "Q" "query Q" f5Defs [.unset] :=
+  fun h => absurd (deliveredB_of_Delivered h) (by decide)
+theorem F5_none_witness_fails : ¬ Delivered scaCfg wFns true "Q" "query Q" f5Defs [.none] :=
+  fun h => absurd (deliveredB_of_Delivered h) (by decide)
+
+/-- C03-F6: `$gql` -/
+def f6Defs : List VarDecl := [⟨"gql", intT, none⟩]
+theorem F6_witness_fails : ¬ Delivered (plainCfg true) wFns true "Q" "query Q" f6Defs [.int 1] :=
+  fun h => absurd (deliveredB_of_Delivered h) (by decide)
+
+/-- C03-F7: a list of custom scalars with `serialize` at top level -/
+def f7Defs : List VarDecl := [⟨"xs", .nonNull (.list (.nonNull (.named "ScA"))), none⟩]
+def f7Args : List AV := [.list [.custom "ScA" (.str "r1"), .custom "ScA" (.str "r2")]]
+theorem F7_witness_fails : ¬ Delivered scaCfg wFns true "Q" "query Q" f7Defs f7Args :=
+  fun h => absurd (deliveredB_of_Delivered h) (by decide)
+
+/-- C03-F8: `$__x` without snake-casing (private-name mangling inside `class Client`) -/
+def f8Defs : List VarDecl := [⟨"__x", .nonNull intT, none⟩]
+theorem F8_witness_fails : ¬ Delivered (plainCfg false) wFns true "Q" "query Q" f8Defs [.int 1] :=
+  fun h => absurd (deliveredB_of_Delivered h) (by decide)
+
+/-- every witness is a valid input inside exactly the trigger region it is filed under -/
+example : argsValid (plainCfg false) (idefs f8Defs) [.int 1] = true ∧ trigMangled false (vdefs f8Defs) = true := by decide
+example : argsValid (plainCfg false) (idefs f1Defs) f1Args = true ∧ trigQueryClobber false (vdefs f1Defs) = true := by decide
+example : argsValid (plainCfg true) (idefs f2Defs) [.int 1] = true ∧ trigSelf true (vdefs f2Defs) = true := by decide
+example : argsValid (plainCfg true) (idefs f3Defs) [.int 1] = true ∧ trigKwargs true (vdefs f3Defs) = true := by decide
+example : argsValid (plainCfg true) (idefs f4Defs) [.int 1, .int 2] = true ∧ trigMerge true (vdefs f4Defs) = true := by decide
+example : argsValid scaCfg (idefs f5Defs) [.unset] = true ∧ trigSerializeNullable (envOf scaCfg) (vdefs f5Defs) = true := by decide
+example : argsValid (plainCfg true) (idefs f6Defs) [.int 1] = true ∧ trigShadow (envOf (plainCfg true)) (vdefs f6Defs) = true := by decide
+example : argsValid scaCfg (idefs f7Defs) f7Args = true ∧ trigSerializeList (envOf scaCfg) (vdefs f7Defs) = true := by decide
+
+theorem C03_full_false : ¬ C03_full := by
+  intro h
+  have hv : Valid_03 (plainCfg true) wFns f2Defs := plain_valid true f2Defs (by decide) (by decide)
+  exact F2_witness_fails ((h (plainCfg true) wFns true "Q" "query Q" f2Defs [.int 1] hv).1 (by decide))
+
+/-! ## 4. Non-vacuity: a non-trivial input inside the theorem region -/
+
+def exSchema : ISchema :=
+  ⟨[("ScA", .scalar), ("Color", .enum ["RED", "from"]),
+    ("Filter", .input [⟨"fooBar", .named "Int" false, some (.num 5 0)⟩, ⟨"class", .list (.named "ScA" true) false, none⟩,
+                       ⟨"nested", .named "Filter" false, none⟩, ⟨"color", .named "Color" true, none⟩])]⟩
+
+def exCfg : Cfg := { schema := exSchema, scalars := [("ScA", scaData)], snake := true }
+
+def exDefs : List VarDecl :=
+  [⟨"class", .named "Filter", none⟩, ⟨"userId", .nonNull (.named "ScA"), none⟩, ⟨"query", .list (.nonNull (.named "Color")), none⟩,
+   ⟨"limit", .named "Int", some (.num 10 0)⟩]
+
+def exInner : AV :=
+  .model "Filter" [(fieldKeyOf exCfg ⟨"fooBar", .named "Int" false, some (.num 5 0)⟩, .int 3),
+                   (fieldKeyOf exCfg ⟨"class", .list (.named "ScA" true) false, none⟩, .none),
+                   (fieldKeyOf exCfg ⟨"nested", .named "Filter" false, none⟩, .unset),
+                   (fieldKeyOf exCfg ⟨"color", .named "Color" true, none⟩, .enum "from")]
+
+def exArgs : List AV :=
+  [.model "Filter" [(fieldKeyOf exCfg ⟨"fooBar", .named "Int" false, some (.num 5 0)⟩, .unset),
+                    (fieldKeyOf exCfg ⟨"class", .list (.named "ScA" true) false, none⟩, .list [.custom "ScA" (.str "r")]),
+                    (fieldKeyOf exCfg ⟨"nested", .named "Filter" false, none⟩, exInner),
+                    (fieldKeyOf exCfg ⟨"color", .named "Color" true, none⟩, .enum "RED")],
+   .custom "ScA" (.num 7 0), .none, .unset]
+
+theorem ex_valid : Valid_03 exCfg wFns exDefs := by
+  refine ⟨⟨?_, ?_, by intro f j; rfl⟩, by decide, by decide⟩
+  · intro n fs h
+    by_cases e1 : ("ScA" == n) = true
+    · simp [exCfg, exSchema, ISchema.get?, List.find?, e1] at h
+    · by_cases e2 : ("Color" == n) = true
+      · simp [exCfg, exSchema, ISchema.get?, List.find?, e1, e2] at h
+      · by_cases e3 : ("Filter" == n) = true
+        · simp [exCfg, exSchema, ISchema.get?, List.find?, e1, e2, e3] at h
+          subst h; decide
+        · simp [exCfg, exSchema, ISchema.get?, List.find?, e1, e2, e3] at h
+  · intro n d h
+    simp only [exCfg, lookupScalar, List.find?] at h
+    by_cases e : ("ScA" == n) = true
+    · have : n = "ScA" := by simpa using (beq_iff_eq.mp e).symm
+      subst this; decide
+    · simp [e] at h
+
+example : argsValid exCfg (idefs exDefs) exArgs = true ∧ Supported_03 exCfg exDefs := by decide
+example : deliveredB exCfg wFns false "Q" "query Q" exDefs exArgs = true := by decide
+
 end Ariadne.C03
